@@ -350,3 +350,8 @@ def run(ctx):
         ctx.ob("R-C09.8", oc, "read-only-shortcut-still-commits-the-inner-transaction", ok,
                "the read-only shortcut goes through BaseTransaction::commit (which honours a syncing durability level)" if ok
                else "the optimistic read-only shortcut returns without BaseTransaction::commit: a syncing durability level is ignored")
+
+    # ---- borrowed obligations (mechanisms owned by other properties that this property's verdict also rests on)
+    # what was synced before a journal rotation survives only as long as the sealed journal is kept for every keyspace that needs it
+    ctx.borrow("C10", ["R-C10.1"], "R-C09.9")
+
